@@ -281,6 +281,9 @@ func (n *c18Node) BeaconBlockHeader(ctx context.Context, opts *api.BeaconBlockHe
 	if id, ok := ctx.Value(c18LookupKey{}).(int); ok {
 		f.lookup = id
 	}
+	// the client library reads its options when it builds the request, which is not the instant the caller
+	// filled them in: another goroutine may run in between
+	simrt.Yield("bn/BeaconBlockHeader/entry")
 	if b, ok := n.byRoot[opts.Block]; ok {
 		f.block = b
 	}
